@@ -27,6 +27,7 @@ var (
 	ErrReset      = errors.New("hnet: connection reset by peer")
 	ErrBrokenPipe = errors.New("hnet: broken pipe")
 	ErrClosed     = errors.New("hnet: use of closed connection")
+	ErrInjected   = errors.New("hnet: injected write error (bytes were sent)")
 )
 
 // SegFunc decides how many of the avail unread bytes (starting at stream offset off) one Read
@@ -109,7 +110,10 @@ type Net struct {
 	TapBytes bool // keep a copy of every byte per direction
 	KeepEv   bool // keep the event list
 	Events   []Event
-	arrival  []int32 // free-running: order in which (pipe,dir) writes happened, for interleaving signatures
+	// BeforeWrite, if set, is called at the start of every Conn.Write (no locks held); it may
+	// break the connection so that this very Write fails.
+	BeforeWrite func(c *Conn)
+	arrival     []int32 // free-running: order in which (pipe,dir) writes happened, for interleaving signatures
 }
 
 func NewNet() *Net { return &Net{TapBytes: true, KeepEv: false} }
@@ -136,6 +140,7 @@ type half struct {
 	cutAt      int64
 	cutKind    string
 	readerGone bool
+	failNext   bool
 }
 
 type Pipe struct {
@@ -293,6 +298,9 @@ func (c *Conn) isClosed() bool {
 
 func (c *Conn) Write(b []byte) (int, error) {
 	p := c.p
+	if bw := p.n.BeforeWrite; bw != nil {
+		bw(c)
+	}
 	if p.rngJ != nil {
 		p.n.mu.Lock()
 		y := p.rngJ.IntN(p.opts.Jitter) == 0
@@ -350,9 +358,14 @@ func (c *Conn) Write(b []byte) (int, error) {
 	h.total += int64(len(data))
 	h.c.Broadcast()
 	kind := h.cutKind
+	fail := h.failNext
+	h.failNext = false
 	h.mu.Unlock()
 	if cut {
 		p.Break(kind)
+	}
+	if fail {
+		return len(b), ErrInjected
 	}
 	return len(b), nil
 }
@@ -497,6 +510,36 @@ func (n *Net) Release(it *Item) {
 		}
 	}
 	h.c.Broadcast()
+	h.mu.Unlock()
+}
+
+// ReleaseCut delivers only the first nbytes of the head item, drops everything that was written
+// after them in that direction, and breaks the connection (both ends). It models a reset/EOF that
+// hits the byte stream at an arbitrary offset inside a record.
+func (n *Net) ReleaseCut(it *Item, nbytes int, kind string) {
+	h := it.h
+	h.mu.Lock()
+	if len(h.queue) == 0 || h.queue[0] != it {
+		h.mu.Unlock()
+		panic("hnet: ReleaseCut of an item that is not the head of its direction")
+	}
+	if nbytes > len(it.Data) {
+		nbytes = len(it.Data)
+	}
+	h.buf = append(h.buf, it.Data[:nbytes]...)
+	h.queue = nil
+	h.queued = 0
+	h.c.Broadcast()
+	h.mu.Unlock()
+	h.p.Break(kind)
+}
+
+// FailNextWrite makes the next Write in direction dir deliver its bytes but return an error
+// (a send whose failure is reported although the bytes left); the connection stays usable.
+func (p *Pipe) FailNextWrite(dir int) {
+	h := p.h[dir]
+	h.mu.Lock()
+	h.failNext = true
 	h.mu.Unlock()
 }
 
